@@ -38,31 +38,32 @@ def build(tier, seed):
     R, C = %d, %d
     val = mat(R, C, "v")
     rr, cc, DR, DC = concrete_int(r, 0, 3), concrete_int(c, 0, 3), concrete_int(dr, 1, 4), concrete_int(dc, 1, 4)
-    b = BroadcastValue(value=[row[:] for row in val], dimension=(DR, DC))
+    given = [row[:] for row in val]          # the object the caller hands in: never written through
+    b = BroadcastValue(value=given, dimension=(DR, DC))
     ok = b.iloc(rr, cc) == val[rr %% R][cc %% C]
     full = b.to_list()
     ok = ok and len(full) == DR and all(len(x) == DC for x in full)
     ok = ok and all(full[i][j] == val[i %% R][j %% C] for i in range(DR) for j in range(DC))
     o = concrete_int(op, 0, 3)
     if o == 1:
-        new = BroadcastValue(value=[row[:] for row in val], dimension=(DR, DC)).update_cell(rr, cc, "NEW")
+        new = BroadcastValue(value=given, dimension=(DR, DC)).update_cell(rr, cc, "NEW")
         want = [[("NEW" if (i == rr and j == cc) else val[i %% R][j %% C]) for j in range(DC)] for i in range(DR)]
         ok = ok and new == want
     elif o == 2:
-        new = BroadcastValue(value=[row[:] for row in val], dimension=(DR, DC)).update_row(rr, ["N%%d" %% j for j in range(DC)])
+        new = BroadcastValue(value=given, dimension=(DR, DC)).update_row(rr, ["N%%d" %% j for j in range(DC)])
         want = [[("N%%d" %% j if i == rr else val[i %% R][j %% C]) for j in range(DC)] for i in range(DR)]
         ok = ok and new == want
     elif o == 3:
-        new = BroadcastValue(value=[row[:] for row in val], dimension=(DR, DC)).update_column(cc, ["N%%d" %% i for i in range(DR)])
+        new = BroadcastValue(value=given, dimension=(DR, DC)).update_column(cc, ["N%%d" %% i for i in range(DR)])
         want = [[("N%%d" %% i if j == cc else val[i %% R][j %% C]) for j in range(DC)] for i in range(DR)]
         ok = ok and new == want
-    return ok and val == mat(R, C, "v")
+    return ok and val == mat(R, C, "v") and given == val
 ''' % (R, C),
             funcs=["rtflite.attributes:BroadcastValue.iloc", "rtflite.attributes:BroadcastValue.to_list", "rtflite.attributes:BroadcastValue.update_cell",
                    "rtflite.attributes:BroadcastValue.update_row", "rtflite.attributes:BroadcastValue.update_column"],
             bounds="value of shape %dx%d recycled over every table shape up to 4x4; index, shape and operation symbolic (solver-enumerated)" % (R, C),
             what="iloc(r,c) = value[r mod R][c mod C]; to_list() agrees with iloc over the whole table; update_cell/row/column change "
-                 "exactly their target (no aliasing between recycled rows) and never the source value"))
+                 "exactly their target (no aliasing between recycled rows) and never write through into the value object the caller passed"))
     # O2: emitters write every field
     HDR_E = HDR9 + r'''
 from rtflite.row import Utils, BORDER_CODES, VERTICAL_ALIGNMENT_CODES
@@ -219,6 +220,10 @@ def want(shape, name, r, c):
                 for name in ("text_format", "text_font_size", "border_left"):
                     got = BroadcastValue(value=getattr(attrs, name), dimension=(h, NCOL)).iloc(i, c)
                     ok = ok and got == want(sh, name, starts[pi] + i, c)
+    # the page-boundary borders were written into per-page copies: the document's own body is untouched
+    ref = BODIES[sh]
+    for name in ("border_top", "border_bottom", "border_left", "border_right", "text_format", "text_font_size"):
+        ok = ok and getattr(body, name) == getattr(ref, name)
     return ok
 ''',
         funcs=["rtflite.encoding.unified_encoder:UnifiedRTFEncoder._apply_data_post_processing",
